@@ -9,10 +9,14 @@
     any other [Panic] is a Go run-time panic, contained by the recover in loadShard / searchOneShard / listOneShard.
 
     Scope (honest): the modelled reader = header, tagged TOC, section reads with mmapedIndexFile.Read's bounds test,
-    fromSizedDeltas(16)/unmarshalDocSections, verify, and the per-document reads of a search.  JSON metadata parsing,
-    the roaring bitmap, calculateStats, the b-tree construction and the match iterators are NOT in these theorems;
-    they are covered by the hunt (all truncations / single-bit flips of real shards served in subprocesses). *)
-From ZV Require Import Lib.Base Lib.Varint Generated.FormatConsts Model.Format Model.FormatRobust Proofs.FormatRobust Model.FormatStats Proofs.FormatStats.
+    fromSizedDeltas(16)/unmarshalDocSections, verify, calculateStats (Model/FormatStats.v), the per-document reads of a
+    search, and the posting-list read + compressedPostingIterator (Model/FormatPosting.v).  JSON metadata parsing, the
+    roaring bitmap, the b-tree construction on unsorted keys and the match iterators ABOVE compressedPostingIterator
+    (ngramDocIterator, mergingIterator, match trees) are NOT in these theorems; they are covered by the hunt (all
+    truncations / single-bit flips of real shards and model-written targeted corruptions of posting lists, served in
+    subprocesses). *)
+From ZV Require Import Lib.Base Lib.Varint Generated.FormatConsts Model.Format Model.FormatRobust Proofs.FormatRobust Model.FormatStats Proofs.FormatStats
+  Model.FormatPosting Proofs.FormatPosting.
 Open Scope N_scope.
 
 (** The repaired delta decoders terminate on EVERY byte string, return a list no longer than the input, and ask
@@ -54,16 +58,54 @@ Proof.
 Qed.
 Print Assumptions C11_load_class.
 
-(** Serving: whatever was loaded, reading a document (name, content, symbol sections, newlines) inside
-    searchOneShard completes, fails, or panics into the recover wrapper — it never hangs. *)
-Theorem C11_served_safe : forall d i,
-  classify_search (doc_read d i) = SOk \/ classify_search (doc_read d i) = SErr \/ classify_search (doc_read d i) = SContained.
+(** Serving: whatever was loaded, (1) reading a document (name, content, symbol sections, newlines) inside
+    searchOneShard completes, fails, or panics into the recover wrapper — it never hangs; (2) the posting-list
+    iterator (index/hititer.go newCompressedPostingIterator / next, Model/FormatPosting.v) on the list of ANY ngram
+    (content and file-name ngrams), advanced with ANY sequence of limits, completes or fails with the read error of
+    the list — no panic, no hang: posting lists are not verified at load time, so these are arbitrary bytes. *)
+Theorem C11_served_safe : forall d i g limits,
+  (classify_search (doc_read d i) = SOk \/ classify_search (doc_read d i) = SErr \/ classify_search (doc_read d i) = SContained)
+  /\ (classify_search (posting_walk d g limits) = SOk \/ classify_search (posting_walk d g limits) = SErr)
+  /\ (classify_search (name_posting_walk d g limits) = SOk \/ classify_search (name_posting_walk d g limits) = SErr).
 Proof.
-  intros d i. pose proof (doc_read_nd d i) as H. unfold classify_search.
+  intros d i g limits. split; [|split; [apply posting_walk_class|apply name_posting_walk_class]].
+  pose proof (doc_read_nd d i) as H. unfold classify_search.
   destruct (doc_read d i) as [x|e|w]; auto. destruct (w =? P_DIVERGE) eqn:E; auto.
   apply N.eqb_eq in E. subst. exfalso. apply H. reflexivity.
 Qed.
 Print Assumptions C11_served_safe.
+
+(** The iterator on ARBITRARY bytes, with its step counter: the constructor and every sequence of next(limit) calls
+    return; all iterations of the loop `for i._first <= limit && len(i.blob) > 0` over the life of the iterator
+    together are at most the number of bytes of the list (every iteration consumes >= 1 byte or ends the list), and a
+    complete walk first(), next(first()), ... ends after at most |list| + 1 postings. *)
+Theorem C11_posting_iter_terminates : forall blob limits,
+  exists it0 it s, cpi_new blob = Ok it0 /\ cpi_run true limits it0 0 = Ok (it, s) /\ s <= nlen blob
+  /\ exists l, postings_of true blob = Ok l /\ (length l <= S (length blob))%nat.
+Proof.
+  intros blob limits. destruct (cpi_new_total blob) as (it0 & E0 & H0).
+  destruct (cpi_run_total limits it0 0) as (it & s & E & H).
+  exists it0, it, s. repeat split; auto; [unfold nlen in *; lia|apply postings_of_total].
+Qed.
+Print Assumptions C11_posting_iter_terminates.
+
+(** REFUTED for the guard `sz < 0` in next (it only catches the overflowing varint; a TRUNCATED varint gives sz = 0):
+    on the 3-byte list 08 0e 8e the calls next(8), next(22) never return, and so does the complete walk; an iteration on
+    a truncated varint leaves the iterator unchanged (so the divergence is real, not an artefact of the fuel).  With the
+    guard of /repo (`sz <= 0`) the same list yields the postings 8, 22; an overflowing varint ends the list. *)
+Theorem C11_posting_iter_guard_lt0_refuted :
+  (exists it, cpi_new wit_posting_trunc = Ok it /\ cpi_run false [8; 22] it 0 = Panic P_DIVERGE)
+  /\ postings_of false wit_posting_trunc = Panic P_DIVERGE
+  /\ postings_of true wit_posting_trunc = Ok [8; 22]
+  /\ postings_of true wit_posting_overflow = Ok [8].
+Proof. exact cpi_guard_lt0_diverges. Qed.
+Print Assumptions C11_posting_iter_guard_lt0_refuted.
+
+Example C11_nonvacuous_posting :   (* the posting list of "nee" of the model-written healthy shard: one posting, rune 8 *)
+  (do d <- load_shard (mmap_file iso_healthy) false; do b <- shard_ngram_search d iso_ngram; postings_of true b) = Ok [8]
+  /\ (do d <- load_shard (mmap_file iso_healthy) false; do x <- posting_walk d iso_ngram [0; 8; 9]; Ok (cpi_first (fst x), snd x))
+     = Ok (MaxU32, 0).
+Proof. vm_compute. split; reflexivity. Qed.
 
 (** REFUTED for the reader before the repairs (witness files are replayed on the implementation by the hunt):
     a 1205-byte file hangs NewSearcher; another one makes it request 8 TiB; a third panics in the loader. *)
